@@ -11,7 +11,8 @@ SECTIONS = ["printing"]
 LEAN_MODULES = ["QExPy.Props.C09"]
 THEOREMS = ["QExPy.C09_total", "QExPy.C09_round_bound", "QExPy.C09_ilog10_spec",
             "QExPy.C09_sig_round", "QExPy.C09_model_ok", "QExPy.C09_spec_sig_figs",
-            "QExPy.C09_model_sig_figs"]
+            "QExPy.C09_model_sig_figs", "QExPy.C09_render_parse", "QExPy.C09_model_wf",
+            "QExPy.C09_model_text_ok"]
 RULE = ("value/uncertainty pairs built from decimal mantissas of 1-12 digits times 10^k with "
         "magnitudes in [1e-12, 1e12]: random digits, just below a decade (95..99x), exact powers of "
         "ten, within 1e-9 of a power of ten, rounding ties (…5), either sign of the value, value 0, "
@@ -28,8 +29,9 @@ ASSUMPTIONS = ["inputs are finite floats with magnitudes in [1e-12, 1e12], uncer
                "the model is exact over the rationals; binary rounding inside x / back_off, 10 ** k "
                "and '{:.nf}'.format is not modelled: it is bounded by the 0.05-unit allowance of the "
                "statement and the 1-unit structural slack"]
-TRUSTED = ["regex parser of the printed string (vf/props/c09.py: parse; cross-checked on every case "
-           "against the Lean render of the model output)",
+TRUSTED = ["the implementation's raw text is read back by the Lean parser parsePrinted (round trip "
+           "with render proved: C09_render_parse); the harness regex (vf/props/c09.py: parse) is only "
+           "a cross-check and the carrier of the structural comparison",
            "modelled not verified: CPython round(), math.log10/floor, str.format('.nf')"]
 LEVEL_TEXT = ("Lean 4 theorems about an exact rational model of printing.py whose constants are "
               "regenerated from the source on every run; the decidable predicate the theorems are "
